@@ -251,12 +251,6 @@ func checkC18(c *c18Case, r *vstat.Run) outcome {
 		break // one recorder per case
 	}
 	// the parse captures exactly the mapped values of the non-elided tokens
-	seen = nil
-	var ast *c18Grammar
-	var perr error
-	if pm := guard(func() { ast, perr = p.ParseString("f", input) }); pm != "" {
-		return violationf("panic", "%s: ParseString panicked: %s", desc, pm)
-	}
 	var wantVals []string
 	parseable := true
 	for _, e := range want {
@@ -271,12 +265,30 @@ func checkC18(c *c18Case, r *vstat.Run) outcome {
 			parseable = false
 		}
 	}
-	if parseable {
-		if perr != nil {
-			return violationf("parse", "%s: parse failed: %v", desc, perr)
+	// through every entry point (the mappers sit between the lexer definition and the parser whichever one is used)
+	for _, entry := range []string{"ParseString", "ParseBytes", "Parse"} {
+		seen = nil
+		var ast *c18Grammar
+		var perr error
+		if pm := guard(func() {
+			switch entry {
+			case "ParseBytes":
+				ast, perr = p.ParseBytes("f", []byte(input))
+			case "Parse":
+				ast, perr = p.Parse("f", strings.NewReader(input))
+			default:
+				ast, perr = p.ParseString("f", input)
+			}
+		}); pm != "" {
+			return violationf("panic", "%s: %s panicked: %s", desc, entry, pm)
 		}
-		if strings.Join(ast.V, "\x00") != strings.Join(wantVals, "\x00") || len(ast.V) != len(wantVals) {
-			return violationf("captured", "%s: captured %q, want %q", desc, ast.V, wantVals)
+		if parseable {
+			if perr != nil {
+				return violationf("parse", "%s: %s failed: %v", desc, entry, perr)
+			}
+			if strings.Join(ast.V, "\x00") != strings.Join(wantVals, "\x00") || len(ast.V) != len(wantVals) {
+				return violationf("captured", "%s: %s captured %q, want %q", desc, entry, ast.V, wantVals)
+			}
 		}
 	}
 	return outcome{}
